@@ -75,7 +75,9 @@ def cases(draw, tier):
     plat = draw(st.sampled_from(["ledger", "sgx"]))
     c = {"platform": plat, "root": draw(st.integers(0, 2 ** 64)),
          "device": draw(st.integers(0, 2 ** 64)), "att": draw(st.integers(0, 2 ** 64)),
-         "wallet": [[p, draw(st.integers(0, 2 ** 64))] for p in ALL_PATHS],
+         "wallet": [[p, draw(st.one_of(st.integers(0, 2 ** 64), st.integers(0, 2 ** 64),
+                                       st.sampled_from(["zero-x", "zero-y"])))]
+                    for p in ALL_PATHS],
          "ui_hash": draw(h32), "signer_hash": draw(h32),
          "iteration": draw(st.one_of(st.sampled_from([0, 1, 65535]), st.integers(0, 65535))),
          "best": draw(h32), "tx": draw(st.binary(min_size=8, max_size=8)),
@@ -93,6 +95,10 @@ def cases(draw, tier):
                                 st.binary(min_size=0, max_size=1000))),
          "third_cert": draw(st.booleans()), "alter": None,
          "pem_wrap": draw(st.sampled_from([0, 64, 64, 76])),
+         # SGX: digests (of the attested message, of key + auth data) that end or begin with a
+         # zero byte
+         "grind_custom": draw(st.sampled_from([None, None, "ends-00", "starts-00"])),
+         "grind_auth": draw(st.sampled_from([None, None, "ends-00", "starts-00"])),
          # through adm_ledger.py / adm_sgx.py with a command line instead of the functions
          "program": draw(st.integers(0, 3)) == 0,
          # validity periods of the (genuine, unexpired) certificates of the SGX chain
@@ -229,6 +235,9 @@ def _run_case(c):
     labels = ["plat:" + plat, "ud-form:" + c.get("ud_form", "plain")] + \
         (["ud-leading-zero"] if c["ud"][0] < 16 else [])
     spec = dict(c)
+    # keys with a coordinate that begins with a zero byte, where the case asks for one
+    spec["wallet"] = [[p_, attest.zero_x_index(p_, k_[-1]) if isinstance(k_, str) else k_]
+                      for p_, k_ in c["wallet"]]
     if alter:
         a = dict(alter)
         if a["target"] == "pubkey":
@@ -428,7 +437,7 @@ def check_values(c, g, text, plat):
         expect("UD value", c["ud"].hex(), ud_idx)
         expect("Best block", c["best"].hex())
         expect("Last transaction signed", c["tx"].hex())
-        expect("Timestamp", str(c["ts"]))
+        expect("Timestamp", str(g.s["ts"]))
 
 
 def stages(tier):
